@@ -75,6 +75,24 @@ Theorem C16_model_fuel_adequate_on_fragment :
   forall c : cq, pf c = true -> is_seq c = true -> parse_ref (print c) <> NoFuel.
 Proof. intros c H1 H2. destruct (print_parse c H1 H2) as [_ ->]. discriminate. Qed.
 
+(* Phrases keep the analyzer's positions (generate_literals_for_str pushes (token.position, term), as
+   postings_writer.index_text does): a document that contains the text of a phrase as consecutive words,
+   anywhere, matches the phrase query built from that text -- for EVERY token filter `drop` (long-word
+   removal, stop words, ...), every text, every surrounding context. *)
+Theorem C16_phrase_matches_own_text :
+  forall (drop : str -> bool) (pre ws post : list str),
+  analyze drop ws <> [] ->
+  phrase_match (analyze drop (pre ++ ws ++ post)) false (analyze drop ws) = true.
+Proof. exact phrase_self_match. Qed.
+
+(* numbering the remaining tokens 0,1,2,... instead loses exactly that: "lord of the rings" on a field
+   with the stop words the/of misses its own text and matches "lord rings" *)
+Theorem C16_phrase_consecutive_offsets_miss :
+  phrase_match (analyze drop_stop lotr) false (renumber (analyze drop_stop lotr)) = false
+  /\ phrase_match (analyze drop_stop [[108;111;114;100]; [114;105;110;103;115]]) false (renumber (analyze drop_stop lotr)) = true
+  /\ phrase_match (analyze drop_stop lotr) false (analyze drop_stop lotr) = true.
+Proof. exact renumbered_phrase_misses_own_text. Qed.
+
 (* non-vacuity: a OR b AND c, with b and c matching, a not *)
 Example and_binds_tighter_example :
   sem (fun b : bool => b) Should (fold_chain (Leaf false) [(Or, Leaf true); (And, Leaf true)]) = true
@@ -110,5 +128,7 @@ Print Assumptions C16_print_parse.
 Print Assumptions C16_model_total.
 Print Assumptions C16_model_total_rejecting_shape.
 Print Assumptions C16_model_fuel_adequate_on_fragment.
+Print Assumptions C16_phrase_matches_own_text.
+Print Assumptions C16_phrase_consecutive_offsets_miss.
 Print Assumptions C16_strict_total_refuted.
 Print Assumptions C16_whitespace_separates_refuted.
